@@ -9,9 +9,13 @@ NOTE = ("Trusted base: Lean 4.33 kernel; axioms propext/Classical.choice/Quot.so
         "check (gen/*.py, harness/, bnum_driver compiled from the same Lean definitions the theorems are about). "
         "The hand-written model is tied to /repo by running model, spec and the real crate (debug-assertion and release builds) on the same generated requests on every run.")
 
+TECH = "Lean 4 theorems about a hand-written model + differential correspondence (crate vs model vs spec)"
 CLAIMED = {
-    "C01": ("Theorems for all digit widths w>=2 and digit counts n>=1 (induction over the digit list): every overflowing/checked/strict/wrapping/saturating/carrying add, sub, neg, abs form returns wrap(exact) with flag <-> not representable (57 theorems, Props/C01.lean). midpoint/abs_diff: model + correspondence only so far.",
-            "Lean 4 theorems about a hand-written model + differential correspondence (crate vs model vs spec)", "7 C01"),
+    "C01": ("Theorems for all digit widths w>=2 and digit counts n>=1 (induction over the digit list): every overflowing/checked/strict/wrapping/saturating/carrying add, sub, neg, abs form, abs_diff, unsigned_abs and midpoint returns wrap(exact) with flag <-> not representable, saturating forms clamp to the side of the exact result, midpoint never panics in either build mode (61 theorems, Props/C01.lean).", TECH, "7 C01"),
+    "C02": ("Theorems for all w, n: long_mul returns (a*b mod 2^BITS, a*b >= 2^BITS) by a row/column loop invariant; widening_mul/carrying_mul are exact (hi*2^BITS+lo = a*b (+c)) and chain; signed overflowing_mul = wrapS(a*b) with flag <-> not representable incl. MIN*-1 and x*MIN; all projections; `mul` panics iff debug assertions and overflow (22 theorems, Props/C02.lean).", TECH, "7 C02"),
+    "C05": ("Theorems for all w>=1, n>=1 and every amount: shl = x*2^s mod 2^BITS, shr = floor(x/2^s) (sign-propagating for signed), checked None / strict panic / overflowing flag <-> s >= BITS, unbounded forms, power-of-two widths use s mod BITS; rotate_left/right are the cyclic rotation by n mod BITS for EVERY width and inverse to each other (37 theorems, Props/C05.lean). The rotation theorem holds because of the fix: commit a393892 in /repo; the check found the defect on the unchanged tree.", TECH, "7 C05"),
+    "C06": ("Theorems for all w (power-of-two digit widths where the code uses shifts/masks for index arithmetic), n>=1: and/or/xor/not per bit, count_ones/zeros, leading/trailing zeros/ones, bits, bit/set_bit with their exact panic range, power_of_two, is_power_of_two, checked/wrapping/next_power_of_two (per build mode), reverse_bits and swap_bytes as bit/byte reversals and involutions (33 theorems, Props/C06.lean).", TECH, "7 C06"),
+    "C07": ("Theorems for all w>=1, n>=1: cmp = compare of the denoted values (unsigned and two's complement), eq <-> identical digit arrays <-> equal values (canonical representation), lt/le/gt/ge/min/max/clamp (panic iff min > max), signum/is_positive/is_negative; hashing is modelled as a function of the digit array, so hash congruence is by injectivity (25 theorems, Props/C07.lean).", TECH, "7 C07"),
 }
 PENDING = {}
 
